@@ -62,6 +62,22 @@ pub fn gen(rng: &mut ChaCha20Rng, n: usize, thorough: bool) -> Vec<Case> {
         if v.len() < 20000 && deserialize::<Transaction>(&v).is_ok() { out.push(rename(c01::mk("tx", &v, vec!["src:repo-vector".into()], true))); }
         if v.len() < 20000 && deserialize::<Block>(&v).is_ok() { out.push(rename(c01::mk("block", &v, vec!["src:repo-vector".into()], true))); }
     }
+    // targeted: script / witness element lengths and element counts exactly at every varint threshold
+    for l in [0xfcusize, 0xfd, 0xffff, 0x10000] {
+        for place in 0..4 {
+            let mut tags = vec![format!("src:targeted-len{:x}-place{}", l, place)];
+            let mut tx = rtx(rng, Feat { big: false, no_witness: false }, &mut tags);
+            if tx.input.is_empty() { tx.input.push(rtxin(rng, Feat::default(), &mut tags)); }
+            if tx.output.is_empty() { tx.output.push(rtxout(rng, Feat::default(), &mut tags)); }
+            match place {
+                0 => tx.input[0].script_sig = elements::Script::from(vec![0x51; l]),
+                1 => tx.output[0].script_pubkey = elements::Script::from(vec![0x52; l]),
+                2 => tx.input[0].witness.script_witness = vec![vec![7u8; l]],
+                _ => if l <= 0xffff { tx.input[0].witness.script_witness = vec![vec![]; l]; } else { tx.input[0].witness.script_witness = vec![vec![1]; 0x100]; },
+            }
+            out.push(rename(c01::mk("tx", &ref_tx(&tx), tags, true)));
+        }
+    }
     for k in 0..n {
         let mut tags = vec!["src:structured".to_string()];
         if k % 8 == 7 {
@@ -71,7 +87,7 @@ pub fn gen(rng: &mut ChaCha20Rng, n: usize, thorough: bool) -> Vec<Case> {
         } else {
             let tx = rtx(rng, Feat { big: thorough || k % 5 == 0, ..f }, &mut tags);
             let nt = !tx.input.is_empty() || !tx.output.is_empty();
-            out.push(rename(c01::mk("tx", &serialize(&tx), tags, nt)));
+            out.push(rename(c01::mk("tx", &ref_tx(&tx), tags, nt)));
         }
     }
     out
